@@ -3,14 +3,14 @@ import NutilsVerif.Model.C18
 namespace NutilsVerif.C18.Gen
 open NutilsVerif.C18
 
-/-- `except` classes around `pickle.load` in Fn: Exception -/
-def caughtFn : List LoadErr := []
+/-- `except` classes around `pickle.load` in Fn: EOFError, UnpicklingError, IndexError -/
+def caughtFn : List LoadErr := [.eof, .unpickling, .index]
 /-- a catch-all (`Exception`/`BaseException`/bare except) is listed -/
-def caughtFnAll : Bool := true
+def caughtFnAll : Bool := false
 
-/-- `except` classes around `pickle.load` in Rec: EOFError, Exception -/
-def caughtRec : List LoadErr := [.eof]
+/-- `except` classes around `pickle.load` in Rec: UnpicklingError, IndexError, EOFError -/
+def caughtRec : List LoadErr := [.unpickling, .index, .eof]
 /-- a catch-all (`Exception`/`BaseException`/bare except) is listed -/
-def caughtRecAll : Bool := true
+def caughtRecAll : Bool := false
 
 end NutilsVerif.C18.Gen
